@@ -195,5 +195,12 @@ func runCLI(ctx context.Context, r *report.Run) int {
 			r.Violate(key, fmt.Sprintf("CLI A=%v B=%v source=%s: %s", c.A, c.B, c.Source, strings.Join(res[i].p, " | ")), map[string]any{"cli": c})
 		}
 	}
+	for _, tc := range twinCases() {
+		n++
+		r.CaseDistinct(true)
+		if p := evalTwin(tc); len(p) > 0 {
+			r.Violate(classifyTwin(tc), fmt.Sprintf("CLI twins %s: %s", tc.Name, strings.Join(p, " | ")), map[string]any{"twin": tc})
+		}
+	}
 	return n
 }
